@@ -18,7 +18,8 @@ RULE = ('Hypothesis draws 1..4 (code, noise, decoder, error rate) groups with '
         'a random partition of every group into 1..6 chunks and for every '
         'chunk a container: plain .json, .json.gz, member of a .zip (plain '
         'or gz), nested sub-directory, output of the real merge-results '
-        'command; file/path order generated. Oracle: pooled reference '
+        'command applied once or twice (merge of merged files); '
+        'file/path order generated. Oracle: pooled reference '
         'computed from the flat trial list (counts, p_est, standard errors, '
         'sector counts, word and single-qubit rates); metamorphic: a second '
         'partition/containers/order of the same multiset gives identical '
@@ -120,7 +121,7 @@ def write_layout(root, groups, layout):
                 fh.write(json.dumps(recs).encode())
         elif kind in ('zip-json', 'zip-gz'):
             zips.setdefault(f.get('zip', 0), []).append((kind, name, recs))
-        elif kind == 'merged':
+        elif kind in ('merged', 'merged2'):
             # one file per record, merged by the real CLI command
             parts = []
             for j, r in enumerate(recs):
@@ -130,6 +131,17 @@ def write_layout(root, groups, layout):
                     json.dump(r if (f.get('bare') and j % 2 == 0) else [r], fh)
                 parts.append(p)
             out = os.path.join(root, name + '_merged.json.gz')
+            if kind == 'merged2':
+                # merge of merged files (per-node merges merged again): the
+                # records sit three lists deep
+                mids = []
+                for a in range(0, len(parts), 2):
+                    mid = os.path.join(tmp, f'{name}_mid{a}.json.gz')
+                    res = CliRunner().invoke(cli, ['merge-results', '-o', mid] + parts[a:a + 2])
+                    if res.exit_code != 0:
+                        raise RuntimeError(f'merge-results failed: {res.output} {res.exception!r}')
+                    mids.append(mid)
+                parts = mids
             res = CliRunner().invoke(cli, ['merge-results', '-o', out] + parts)
             if res.exit_code != 0:
                 raise RuntimeError(f'merge-results failed: {res.output} {res.exception!r}')
@@ -282,7 +294,7 @@ def eval_case(case):
             'evals': sum(len(g['trials']) for g in groups)}
 
 
-KINDS = ['json', 'gz', 'nested', 'zip-json', 'zip-gz', 'merged']
+KINDS = ['json', 'gz', 'nested', 'zip-json', 'zip-gz', 'merged', 'merged2']
 
 
 @st.composite
